@@ -92,6 +92,7 @@ def collect(ctx, validated, props):
                 ctx.violation(clause, klass, {
                     'driver': sc['driver'], 'prog': sc['prog'], 'variant': sc['variant'], 'seed': sc['seed'],
                     'nsteps': sc['nsteps'], 'mode': sc['mode'], 'failing_step': step, 'i': sc.get('i', 0),
+                    'per_class': sc.get('per_class', 2),
                     'event': {k: ev[k] for k in ev if k != 'post'},
                     'script': sc['script'][:step],
                 }, detail=json.dumps({k: ev[k] for k in ('op', 'kind', 'field', 'exc', 'msg', 'codeform') if k in ev}))
